@@ -1,5 +1,6 @@
 import SaramaVerif.Model.ProduceSet
 import SaramaVerif.Lemmas.C16Sets
+import SaramaVerif.Lemmas.C16Wire
 /-
   C16 — produce requests respect the configured size and count limits, and flush on time.
   Property theorems (for ALL sequences of adds / drops / run-loop events) + non-vacuity examples.
@@ -175,6 +176,51 @@ theorem dispatch_table (c : Conf) (hnn : Bool) (m : Msg) :
       else if byteSize (sizeVersion c) m > c.maxMessageBytes then .errMessageSizeTooLarge else .forward := by
   unfold dispatch
   cases c.v2 <;> cases hnn <;> simp
+
+/-! ### size on the wire -/
+
+private theorem topicsWire_nonneg (f : Nat → Nat) (s : State) : 0 ≤ topicsWire f s := by
+  unfold topicsWire
+  exact sumMap_nonneg _ _ (fun t _ => by omega)
+
+/-- **request size margin**: the encoded size of an uncompressed request exceeds the running estimate by at
+    most `slack`: request header and fixed fields, topic names, 8 bytes per partition, and what the estimate
+    leaves out per batch (12 bytes of a record batch header) resp. per message (8 bytes timestamp of format 1). -/
+theorem request_size_margin {c : Conf} {s : State} (cid : Nat) (f : Nat → Nat) (h : SInv c s)
+    (hc : c.codec = 0) (hsm : SmallSet s) :
+    0 ≤ wireSize c cid f s ∧ wireSize c cid f s ≤ s.bufferBytes + slack c cid f s := by
+  have hp := sum_parts_le hc s.parts h.parts hsm
+  have ht := topicsWire_nonneg f s
+  have hf : 0 ≤ reqFixed c cid := by unfold reqFixed; split <;> omega
+  unfold wireSize slack
+  rw [h.bytes, h.count]
+  cases hv : c.v2 <;> cases h1 : c.v1 <;> simp [hv, h1] at hp ⊢ <;> omega
+
+/-- for message sets (formats 0 and 1) the bound is an equality: the estimate undercounts format 1 by exactly
+    8 bytes per message -/
+theorem request_size_exact_legacy {c : Conf} {s : State} (cid : Nat) (f : Nat → Nat) (h : SInv c s)
+    (hc : c.codec = 0) (hv : c.v2 = false) (hsm : SmallSet s) :
+    wireSize c cid f s = s.bufferBytes + slack c cid f s := by
+  have hp := (sum_parts_le hc s.parts h.parts hsm).2.2 hv
+  unfold wireSize slack
+  rw [h.bytes, h.count, hp]
+  cases h1 : c.v1 <;> simp [hv] <;> omega
+
+/-- **request_size_limit**: a request is written only if `encode` accepted it, i.e. it is not longer than
+    MaxRequestSize … -/
+theorem request_size_limit (c : Conf) (size : Int) (h : encodeAccepts c size = true) : size ≤ c.maxRequestSize := by
+  unfold encodeAccepts at h; simp at h; exact h.2
+
+/-- … and a set grown under the overflow discipline is accepted whenever its slack fits into the 10 KiB margin -/
+theorem request_within_margin_accepted {c : Conf} {s : State} (cid : Nat) (f : Nat → Nat) (h : Grown c s)
+    (hc : c.codec = 0) (hsm : SmallSet s) (h2 : 2 ≤ s.bufferCount)
+    (hslack : slack c cid f s + (if c.v2 = true then recordBatchOverhead else 0) ≤ safetyMargin) :
+    encodeAccepts c (wireSize c cid f s) = true := by
+  have hm := request_size_margin cid f (grown_inv h).1 hc hsm
+  have he := request_estimate_limit h h2
+  unfold encodeAccepts
+  simp only [decide_eq_true_eq]
+  omega
 
 /-! ### flush predicates -/
 
@@ -374,5 +420,11 @@ example : (BP.run exConf BP.init [.msg 0 (exMsg 1 3 10)]).1.outputEnabled = fals
 example : (BP.run exConf BP.init [.msg 0 (exMsg 1 3 10), .msg 0 (exMsg 2 3 10)]).1.outputEnabled = true := by decide
 /-- with a frequency the timer is armed by the first message and its firing enables the output -/
 example : (BP.run { exConf with flushFrequency := 1000 } BP.init [.msg 0 (exMsg 1 3 10), .timer]).1.outputEnabled = true := by decide
+
+/-- the format-1 undercount is real: 1913 empty messages estimate to 49738 bytes but need 65042 + header -/
+example : (26 : Int) * 1913 = 49738 ∧ (34 : Int) * 1913 = 65042 := by decide
+/-- wire size of a two-message record batch request -/
+example : wireSize exConf 5 (fun _ => 3)
+    (add exConf (add exConf State.empty 0 (exMsg 1 3 10)) 0 (exMsg 2 3 10)) = 149 := by decide
 
 end Props.C16
